@@ -302,6 +302,14 @@ func run(c *enum.Ctx) {
 			cases = append(cases, kase{Format: "fasta", Recs: long, LongLen: n, Width: w, L: layout{AllTrail: true, TrailWS: " \t", CRLF: true}})
 			cases = append(cases, kase{Format: "fasta", Recs: long, LongLen: n, Width: w, L: layout{Blank: []int{1, 2}}})
 		}
+		// the long record last, so that without a final newline the file ends in a line of
+		// exactly, just under and just over a multiple of the 4096-byte read buffer
+		last := []seqgen.Rec{{Name: "b", Letters: "ac"}, {Name: "long", Desc: "x y"}}
+		for _, n := range []int{4095, 4096, 4097, 8192, 12288} {
+			for _, l := range layouts(0, nil, false, false) {
+				cases = append(cases, kase{Format: "fasta", Recs: last, LongLen: n, Width: w, L: l})
+			}
+		}
 	}
 	for _, e := range []alphabet.Encoding{alphabet.Sanger, alphabet.Illumina1_3} {
 		qa := seqgen.QualAlphabet(e)
@@ -327,6 +335,9 @@ func run(c *enum.Ctx) {
 			}
 			for _, l := range layouts(0, nil, false, false) {
 				cases = append(cases, kase{Format: "fastq", Recs: []seqgen.Rec{{Name: "long", Desc: "x"}, {Name: "b", Letters: "ac", Quals: []int{qa[0], qa[3]}}}, LongLen: 4097, Enc: int(e), QID: qid, L: l})
+				for _, n := range []int{4095, 4096, 8192} {
+					cases = append(cases, kase{Format: "fastq", Recs: []seqgen.Rec{{Name: "b", Letters: "ac", Quals: []int{qa[0], qa[3]}}, {Name: "long", Desc: "x"}}, LongLen: n, Enc: int(e), QID: qid, L: l})
+				}
 			}
 		}
 	}
